@@ -99,6 +99,12 @@ Definition jwt_time_err (e : go_error) : option jerr :=
       else Some EClaims   (* not an answer of the model's check_time *)
   end.
 
+Definition jerr_tag' (e : option jerr) : N :=
+  match e with
+  | None => 0 | Some EKid => 1 | Some EAlg => 2 | Some ETyp => 3 | Some EIss => 4 | Some EAud => 5
+  | Some ECTyp => 6 | Some ESub => 7 | Some EScope => 8 | Some _ => 99
+  end%N.
+
 Definition jerr_tag (e : option jerr) : N :=
   match e with None => 0 | Some EFuture => 1 | Some EExpired => 2 | Some _ => 3 end%N.
 
@@ -163,3 +169,56 @@ Definition cex_checkPassCode :=
   cex_search N.eqb
     (fun x => pc_err_code (run_checkPassCode cand_text (fst x) (fst (snd x)) (snd (snd x))))
     (fun x => checkPassCode (fst x) (fst (snd x)) (snd (snd x))) cands_checkPassCode.
+
+(** ** jwt.checkHeader, jwt.CheckClaimSet: the refusals by their message. *)
+Definition jwt_claims_err (e : go_error) : option jerr :=
+  match e with
+  | None => None
+  | Some (GoErr _ m) =>
+      if String.eqb m "wrong issuer" then Some EIss
+      else if String.eqb m "wrong audiance" then Some EAud
+      else if String.eqb m "wrong type" then Some ECTyp
+      else if String.eqb m "wrong subject" then Some ESub
+      else if String.eqb m "scope %q missing" then Some EScope
+      else Some EClaims
+  end.
+
+Definition jwt_header_err (e : go_error) : option jerr :=
+  match e with
+  | None => None
+  | Some (GoErr _ m) =>
+      if String.eqb m "kid=%q, want %q" then Some EKid
+      else if String.eqb m "alg=%q, want %q" then Some EAlg
+      else if String.eqb m "typ=%q, want %q" then Some ETyp
+      else Some EClaims
+  end.
+
+
+Definition cand_strs3 : list (list N) := [[]; [97]; [98]; [97; 32; 98]; [98; 32; 32; 97]; [97; 98]; [32]; [99; 9; 97]]%N.
+
+Definition cands_checkHeader : list (header * header) :=
+  let hs := flat_map (fun k => flat_map (fun a => map (fun t => mkH a t k) [[]; [74]]%N) [[72]; [82]]%N) [[]; [49]]%N in
+  pairs hs hs.
+Definition cex_checkHeader :=
+  cex_search N.eqb
+    (fun x => jerr_tag' (jwt_header_err (gen_jwt_checkHeader (h_kid (fst x)) (h_alg (fst x)) (h_typ (fst x))
+                                           (h_kid (snd x)) (h_alg (snd x)) (h_typ (snd x)))))
+    (fun x => jerr_tag' (check_header (fst x) (snd x))) cands_checkHeader.
+
+Definition cands_CheckClaimSet : list (claims * claims) :=
+  let cs := flat_map (fun sc => flat_map (fun iss => map (fun sub => mkC iss sc [97]%N 0 0 [] sub) [[]; [97]]%N) [[]; [97]; [98]]%N) cand_strs3 in
+  pairs cs cs.
+Definition cex_CheckClaimSet :=
+  cex_search N.eqb
+    (fun x => let c := fst x in let t := snd x in
+              jerr_tag' (jwt_claims_err (gen_jwt_CheckClaimSet false false (c_iss c) (c_aud c) (c_typ c) (c_sub c) (c_scope c)
+                                           (c_iss t) (c_aud t) (c_typ t) (c_sub t) (c_scope t))))
+    (fun x => jerr_tag' (check_claims (fst x) (snd x))) cands_CheckClaimSet.
+
+(** ** The window the constructors store. *)
+Definition cex_NewTimeSigner_window :=
+  cex_search Z.eqb gen_signer_NewTimeSigner_window abs_window
+    [0; 1; -1; 5; -5; 9223372036854775807; -9223372036854775807].
+Definition cex_NewRSATimeSigner_window :=
+  cex_search Z.eqb gen_signer_NewRSATimeSigner_window abs_window
+    [0; 1; -1; 5; -5; 9223372036854775807; -9223372036854775807].
